@@ -6,6 +6,7 @@ package main
 
 import (
 	"fmt"
+	"os"
 	"sort"
 	"strings"
 	"sync"
@@ -73,6 +74,8 @@ type Explorer struct {
 	panicMsg string
 	ds       *domState
 	nDom     int
+	arena    []uint64
+	arenaPos int
 }
 
 func (ex *Explorer) reset(it workItem) {
@@ -95,6 +98,11 @@ func (ex *Explorer) reset(it workItem) {
 	ex.newItems = nil
 	ex.panicMsg = ""
 	ex.ds = newDomState()
+	if len(ex.arena) == 256*512 {
+		ex.arenaPos = 0
+	} else {
+		ex.arena, ex.arenaPos = nil, 0
+	}
 }
 
 // newVar declares (or fetches) a symbolic variable.
@@ -213,7 +221,8 @@ func (ex *Explorer) decide(c *Term) bool {
 		return c.val != 0
 	}
 	tt := ex.tt
-	dres, wT, wF := -1, 0, 0
+	dres := -1
+	var wT, wF map[int32]int
 	if !noDomain {
 		dres, wT, wF = ex.domDecide(c)
 		if dres == 1 || dres == 0 {
@@ -257,9 +266,14 @@ func (ex *Explorer) decide(c *Term) bool {
 		if b {
 			w = wF
 		}
-		model[ex.tt.vars[c.sv].Name] = uint64(w)
+		for x, v := range w {
+			model[ex.tt.vars[x].Name] = uint64(v)
+		}
 		ex.nDom++
 	} else {
+		if debugAssert {
+			fmt.Fprintf(os.Stderr, "decide->solver: sv=%d multi=%v :: %s\n", c.sv, c.sv >= 0 && ex.ds.multi[c.sv], c.String())
+		}
 		res, model = ex.check(other)
 	}
 	ex.nForks++
@@ -370,6 +384,13 @@ func (ex *Explorer) assert(c *Term, msg string) {
 	if ex.eval(c) == 0 {
 		panic(engineAbort{kind: "violation", msg: msg})
 	}
+	if !noDomain && ex.domProve(c) {
+		ex.w.stats.assertsDomain++
+		return
+	}
+	if debugAssert {
+		fmt.Fprintf(os.Stderr, "assert->solver: %s :: %s\n", msg, c.String())
+	}
 	res, model := ex.check(ex.tt.Not(c))
 	switch res {
 	case Sat:
@@ -479,6 +500,7 @@ type Stats struct {
 	forks          int64
 	asserts        int64
 	assertsProved  int64
+	assertsDomain  int64
 	steps          int64
 	queries        int64
 	solverTime     time.Duration
@@ -585,6 +607,7 @@ func (w *Worker) runPath(d *Driver, it workItem) (items []workItem, r PathResult
 	ex.reset(it)
 	ip.steps = 0
 	ip.depth = 0
+	ip.sp = 0
 	ip.budget = w.cfg.Budget
 	w.solver.Send("(push 1)\n")
 	q0, t0 := w.solver.Queries, w.solver.Time
@@ -688,6 +711,7 @@ func (s *Stats) add(o *Stats) {
 	s.forks += o.forks
 	s.asserts += o.asserts
 	s.assertsProved += o.assertsProved
+	s.assertsDomain += o.assertsDomain
 	s.steps += o.steps
 	s.queries += o.queries
 	s.solverTime += o.solverTime
@@ -725,4 +749,24 @@ func sortedKeys[V any](m map[string]V) []string {
 	}
 	sort.Strings(ks)
 	return ks
+}
+
+var debugAssert = os.Getenv("SYMGO_DEBUGASSERT") != ""
+
+// domProve: c holds for all values allowed by the single-variable domains
+// (sufficient condition; conjunctions are proved conjunct-wise).
+func (ex *Explorer) domProve(c *Term) bool {
+	if c.IsTrue() {
+		return true
+	}
+	if c.op == OpAnd {
+		return ex.domProve(c.a) && ex.domProve(c.b)
+	}
+	if c.sv >= 0 && ex.smallVar(c.sv) {
+		d := ex.domOf(c.sv)
+		ts := ex.truthSet(c)
+		rest := d.andNot(&ts)
+		return rest.empty()
+	}
+	return false
 }
